@@ -63,7 +63,7 @@ def run_one(st, spec, rnd):
                     out.problems.append({"kind": "differs-from-unpartitioned", "tensor": n})
         else:
             st.bump("diff", "unpartitioned-" + str(o2.status))
-    st.account(ID, cs, out, classify)
+    st.account(ID, cs, out, classify, must_compile=True)
 
 
 def shard(tier, seed, shard, nshards):
@@ -79,7 +79,7 @@ def replay(v):
     cs = C.Case.from_json(v["case"])
     st = common.Stats()
     out = C.evaluate(cs)
-    st.account(ID, cs, out, classify)
+    st.account(ID, cs, out, classify, must_compile=True)
     return st.violations
 
 
